@@ -19,6 +19,26 @@ impl Default for ResolveRegistry {
     }
 }
 
+#[cfg(crux_verif)]
+impl ResolveRegistry {
+    /// (id, kind) of every entry currently held, in id order, for the verification harness
+    pub(crate) fn verif_entries(&self) -> Vec<(u32, &'static str)> {
+        self.0
+            .lock()
+            .expect("Registry Mutex poisoned.")
+            .iter()
+            .map(|(id, entry)| {
+                let kind = match entry {
+                    ResolveSerialized::Never => "never",
+                    ResolveSerialized::Once(_) => "once",
+                    ResolveSerialized::Many(_) => "many",
+                };
+                (id as u32, kind)
+            })
+            .collect()
+    }
+}
+
 impl ResolveRegistry {
     /// Register an effect for future continuation, when it has been processed
     /// and output given back to the core.
